@@ -45,3 +45,4 @@ MUTANTS.append(dict(name="component-responses-parsed-once-per-name", file='core/
 MUTANTS.append(dict(name='server-error-import-conditional', file='visit/exception_visitor.py', expect='R6.9', old='        context.add_import(f"{context.core_package_name}.exceptions", "ServerError")\n', new='        if spec.operations:\n            context.add_import(f"{context.core_package_name}.exceptions", "ServerError")\n'))
 MUTANTS.append(dict(name='registry-rescue-only-one-level-deep', file='generator/client_generator.py', expect='R6.10', old='                if registry_path.is_file() and (core_dir == out_dir or out_dir in core_dir.parents):\n', new='                if registry_path.is_file() and out_dir in (core_dir, core_dir.parent):\n'))
 MUTANTS.append(dict(name='transport-follows-redirects', file='core/http_transport.py', expect='R6.11', old='        request_args["headers"] = prepared_headers\n', new='        request_args["headers"] = prepared_headers\n        # Gateways answer a missing trailing slash or an http:// base URL with a redirect to the canonical URL\n        request_args.setdefault("follow_redirects", True)\n'))
+MUTANTS.append(dict(name='classified-tail-removed', file='visit/endpoint/generators/response_handler_generator.py', expect='R6.12', old='        default_response = next((r for r in op.responses if r.status_code == "default"), None)\n        default_returns = bool(default_response and default_response.content and strategy.return_type != "None")\n\n        # Remaining 4xx/5xx (undeclared, or declared as \'4XX\'/\'5XX\' or by a default without content): classified errors.\n        # A default response that is returned as a value answers the ranges the document does not declare itself.\n        declared_codes = {r.status_code.upper() for r in op.responses}\n        if not default_returns or "4XX" in declared_codes:\n            context.add_import(f"{context.core_package_name}.exceptions", "ClientError")\n            writer.write_line("case _ if 400 <= response.status_code < 500:")\n            writer.indent()\n            writer.write_line(\n                "raise ClientError(response=response, message=response.text, status_code=response.status_code)"\n            )\n            writer.dedent()\n        if not default_returns or "5XX" in declared_codes:\n            context.add_import(f"{context.core_package_name}.exceptions", "ServerError")\n            writer.write_line("case _ if 500 <= response.status_code < 600:")\n            writer.indent()\n            writer.write_line(\n                "raise ServerError(response=response, message=response.text, status_code=response.status_code)"\n            )\n            writer.dedent()\n\n        # Handle default case\n        if default_response:\n            writer.write_line("case _:  # Default response")\n            writer.indent()\n            if default_returns:\n', new='        # Handle default case\n        default_response = next((r for r in op.responses if r.status_code == "default"), None)\n        if default_response:\n            writer.write_line("case _:  # Default response")\n            writer.indent()\n            if default_response.content and strategy.return_type != "None":\n'))
